@@ -202,7 +202,8 @@ func (g *G) spdxNode(id string, inClass bool) M {
 		h := []any{}
 		for _, a := range sharedHashAlgos {
 			if g.Chance(0.2) {
-				h = append(h, []any{float64(a), g.Pick([]string{"aa", "bb", "0f"})})
+				// a checksum whose value is empty is still a checksum entry
+				h = append(h, []any{float64(a), g.Pick([]string{"aa", "bb", "0f", "aa", "bb", "0f", "aa", ""})})
 			}
 		}
 		if !inClass && g.Chance(0.3) {
@@ -780,6 +781,21 @@ func oracleSpdx(op M, res any, exec func(M) any) []Finding {
 			if rs, ok := rv.Nodes[id]; ok && dv.Nodup() && asInt(ns[0]["type"]) <= 1 {
 				if !Equal(identityAttrs(ns[0]), identityAttrs(rs[0])) {
 					add("C03", "identity attributes of node %q change across SPDX: %s vs %s", id, js(identityAttrs(ns[0])), js(identityAttrs(rs[0])))
+				}
+				// "per node the same purl / CPE / gitoid identifiers", whatever else the identifier map holds
+				if asInt(ns[0]["type"]) == 0 {
+					ids := func(n M) any {
+						l := []any{}
+						for _, p := range asList(attrOf(n, "Identifiers")) {
+							if q := p.([]any); asInt(q[0]) >= 1 && asInt(q[0]) <= 4 && asStr(q[1]) != "" {
+								l = append(l, p)
+							}
+						}
+						return sortPairs(l)
+					}
+					if w, g := ids(ns[0]), ids(rs[0]); !Equal(w, g) {
+						add("C01", "node %q: identifiers written %s (next to %s), read back %s", id, js(w), js(attrOf(ns[0], "Identifiers")), js(g))
+					}
 				}
 			} else if !ok && dv.Nodup() && asInt(ns[0]["type"]) <= 1 && spdxIDRe.MatchString(id) && id != "DOCUMENT" && !strings.HasPrefix(id, "SPDXRef-") && !strings.HasPrefix(id, "protobom-") {
 				add("C03", "node %q (name %s) was written and is not among the nodes read back", id, js(attrOf(ns[0], "Name")))
